@@ -431,6 +431,9 @@ fn part_s(cfg: Cfg, depth: usize, first: Op, out: &mut SeqOut) {
     let alpha = alphabet();
     let mut seen: HashSet<String> = HashSet::new();
     let mut frontier: Vec<Vec<Op>> = vec![vec![]];
+    let mut local_viol: Vec<nvc::report::ViolationRec> = vec![];
+    let mut local_seq: HashSet<String> = HashSet::new();
+    let mut local_deepest: Vec<Op> = vec![];
     for level in 0..depth {
         type Row = (Vec<Op>, Result<(String, Option<String>, bool, bool), Viol>);
         let results: Vec<Row> = frontier
@@ -487,14 +490,10 @@ fn part_s(cfg: Cfg, depth: usize, first: Op, out: &mut SeqOut) {
                         Op::AppendUnsigned if v.sig == "verify-fails" => "c16:seq:append-accepts-unsigned-block-1:verify-fails".to_string(),
                         op => format!("c16:seq:{}:{}", op_kind(op), v.sig),
                     };
-                    // keep the 3 shortest counterexamples per signature (a worker runs several tasks)
-                    let rec = nvc::report::ViolationRec { signature: sig.clone(), message: format!("cfg {cfg:?}, after {hist:?}: {}", v.msg), replay: json!({"part":"S","cfg":cfg,"ops":hist}) };
-                    if out.violations.iter().filter(|x| x.signature == sig).count() < 3 {
-                        out.violations.push(rec);
-                    } else if let Some(worst) = out.violations.iter_mut().filter(|x| x.signature == sig).max_by_key(|x| x.message.len()) {
-                        if rec.message.len() < worst.message.len() {
-                            *worst = rec;
-                        }
+                    // first 3 per signature *of this task* (BFS order = shortest first); the parent picks the
+                    // globally shortest, so the artefacts do not depend on which worker ran which task
+                    if local_viol.iter().filter(|x| x.signature == sig).count() < 3 {
+                        local_viol.push(nvc::report::ViolationRec { signature: sig.clone(), message: format!("cfg {cfg:?}, after {hist:?}: {}", v.msg), replay: json!({"part":"S","cfg":cfg,"ops":hist}) });
                     }
                 }
                 Ok((key, seq_key, new_block, commit_failed)) => {
@@ -506,13 +505,13 @@ fn part_s(cfg: Cfg, depth: usize, first: Op, out: &mut SeqOut) {
                         }
                     }
                     if let Some(k) = seq_key {
-                        if !out.seqs.iter().any(|x| x.2 == k) {
+                        if local_seq.insert(k.clone()) {
                             out.seqs.push((cfg, hist.clone(), k));
                         }
                     }
                     if seen.insert(key.clone()) {
                         out.state_hashes.push(hash_str(&key));
-                        out.deepest = hist.clone();
+                        local_deepest = hist.clone();
                         next.push(hist);
                     }
                 }
@@ -520,7 +519,15 @@ fn part_s(cfg: Cfg, depth: usize, first: Op, out: &mut SeqOut) {
         }
         frontier = next;
     }
+    out.violations.extend(local_viol);
+    if deeper(&local_deepest, &out.deepest) {
+        out.deepest = local_deepest;
+    }
     out.tasks.push(json!({"cfg": cfg, "first_op": first, "depth": depth, "states": out.state_hashes.len() - st0, "transitions": out.transitions - tr0, "wall_s": env::real_now_s() - t0}));
+}
+/// order-independent choice of the sample history
+fn deeper(a: &[Op], b: &[Op]) -> bool {
+    (a.len(), format!("{a:?}")) > (b.len(), format!("{b:?}"))
 }
 fn block_seq(cfg: Cfg, hist: &[Op]) -> BlockSeq {
     let s = replay(cfg, hist).ok().expect("replay of a recorded history");
@@ -1186,12 +1193,14 @@ fn explore_program(p: &Program, bound: usize, part: (usize, usize), st: &mut WSt
         st.machinery.get_or_insert(format!("{}: execution cap hit", p.name));
     }
     st.violation_total += stats.violation_count;
+    let mut local_viol: Vec<nvc::report::ViolationRec> = vec![];
     for v in stats.violations {
         let (sig, msg) = conc_signature(p, &v.message);
-        if st.violations.iter().filter(|x| x.signature == sig).count() < 3 {
-            st.violations.push(nvc::report::ViolationRec { signature: sig, message: format!("{}: {msg} (thread schedule {}, {} preemptions)", p.name, rle(&v.threads), v.preemptions), replay: json!({"part":"T","program": p, "bound": bound, "choices": v.choices, "thread_schedule": v.threads}) });
+        if local_viol.iter().filter(|x| x.signature == sig).count() < 3 {
+            local_viol.push(nvc::report::ViolationRec { signature: sig, message: format!("{}: {msg} (thread schedule {}, {} preemptions)", p.name, rle(&v.threads), v.preemptions), replay: json!({"part":"T","program": p, "bound": bound, "choices": v.choices, "thread_schedule": v.threads}) });
         }
     }
+    st.violations.extend(local_viol);
     if st.sample.is_none() && part.0 == 0 && p.name == programs(false)[0].name {
         st.sample = Some(json!({"part":"T","program": p, "executions_in_this_partition": stats.executions, "distinct_outcomes": stats.outcomes.keys().collect::<Vec<_>>(), "first_schedule_len": stats.sample_schedule.len()}));
     }
@@ -1435,9 +1444,7 @@ fn main() {
     let mut s = SeqOut::default();
     let mut seq_seen: HashSet<String> = HashSet::new();
     let mut all_viol: Vec<nvc::report::ViolationRec> = vec![];
-    let mut results = results;
-    // task-to-worker assignment is dynamic: order everything that is order-sensitive
-    results.sort_by_key(|w| serde_json::to_string(&w.seq.tasks).unwrap_or_default() + &format!("{:?}", w.outcomes.keys().collect::<Vec<_>>()));
+    // task-to-worker assignment is dynamic: everything below is merged order-independently
     for w in results {
         tt.tasks += w.tasks;
         tt.executions += w.executions;
@@ -1463,15 +1470,11 @@ fn main() {
         s.commits_ok += w.seq.commits_ok;
         s.commits_err += w.seq.commits_err;
         s.tasks.extend(w.seq.tasks);
-        if w.seq.deepest.len() > s.deepest.len() {
+        if deeper(&w.seq.deepest, &s.deepest) {
             s.deepest = w.seq.deepest.clone();
         }
         all_viol.extend(w.seq.violations);
-        for (c, h, k) in w.seq.seqs {
-            if seq_seen.insert(k.clone()) {
-                s.seqs.push((c, h, k));
-            }
-        }
+        s.seqs.extend(w.seq.seqs);
     }
     // shortest counterexample first, at most 3 artefacts per signature
     all_viol.sort_by_key(|v| (v.signature.clone(), v.message.len(), v.message.clone()));
@@ -1486,12 +1489,16 @@ fn main() {
     }
     s.tasks.sort_by_key(|t| t.to_string());
     let s_states = state_hashes.len() as u64 + configs().len() as u64; // + the empty history of each configuration
-    s.seqs.sort_by(|a, b| (a.1.len(), format!("{:?}", a.1)).cmp(&(b.1.len(), format!("{:?}", b.1))));
+    // one representative history per distinct block sequence: the smallest in a fixed order
+    s.seqs.sort_by_key(|x| (x.1.len(), format!("{:?}", x.1), format!("{:?}", x.0)));
+    s.seqs.retain(|x| seq_seen.insert(x.2.clone()));
     rep.part("S", json!({"depth": depth, "tasks": s.tasks, "distinct_states": s_states, "transitions": s.transitions, "violating_transitions": s.violating, "commits_creating_a_block": s.commits_ok, "commits_without_block": s.commits_err, "wall_s_together_with_T": st_wall}));
     rep.sample(json!({"part":"S","deepest_new_state_history": s.deepest}));
     let single: Vec<&String> = tt.outcomes.iter().filter(|(_, v)| v.len() < 2).map(|(k, _)| k).collect();
+    // artefacts are capped (8 per schedule-tree partition, 3 per signature); the outcome sets are not
+    let symptoms: BTreeSet<String> = tt.outcomes.values().flatten().filter_map(|o| o.rsplit('|').next().filter(|x| x.starts_with("VIOLATION") || x.starts_with('<')).map(str::to_string)).collect();
     let nontrivial_t: u64 = tt.by_preemptions.iter().filter(|(k, _)| **k > 0).map(|(_, v)| *v).sum();
-    rep.part("T", json!({"programs": nprog, "preemption_bound": bound, "schedules_executed": tt.executions, "scheduling_points": tt.sched_points, "max_points_per_execution": tt.max_points, "schedules_by_preemptions": tt.by_preemptions, "distinct_outcomes_per_program": tt.outcomes.iter().map(|(k, v)| (k.clone(), v.len())).collect::<BTreeMap<_, _>>(), "programs_with_a_single_outcome": single, "violating_schedules": tt.violation_total, "wall_s_together_with_S": st_wall}));
+    rep.part("T", json!({"programs": nprog, "preemption_bound": bound, "schedules_executed": tt.executions, "scheduling_points": tt.sched_points, "max_points_per_execution": tt.max_points, "schedules_by_preemptions": tt.by_preemptions, "distinct_outcomes_per_program": tt.outcomes.iter().map(|(k, v)| (k.clone(), v.len())).collect::<BTreeMap<_, _>>(), "programs_with_a_single_outcome": single, "violation_symptoms_seen_in_any_schedule": symptoms, "violating_schedules": tt.violation_total, "wall_s_together_with_S": st_wall}));
     if let Some(x) = tt.sample.clone() {
         rep.sample(x);
     }
